@@ -70,6 +70,14 @@ theorem mem_readMem_of_mem (xs : List Region) (r : Region) (a w : Nat) (hw : 0 <
   rw [mem_find_unique xs r a w hw hp hm hc]
   rfl
 
+/-- an empty read succeeds as soon as some region admits it -/
+theorem mem_readMem_zero (xs : List Region) (r : Region) (a : Nat) (hm : r ∈ xs) (hc : r.contains a 0 = true) :
+    readMem xs a 0 = some [] := by
+  unfold readMem
+  cases hf : xs.find? (fun r => r.contains a 0) with
+  | none => exact absurd hc (List.find?_eq_none.1 hf r hm)
+  | some q => rfl
+
 theorem mem_readMem_head (q : Region) (rest : List Region) (a w : Nat) (hc : q.contains a w = true) :
     readMem (q :: rest) a w = some (memBytesAt q a w) := by
   unfold readMem
@@ -317,17 +325,31 @@ theorem mem_read_top_w (frame lower : Region) (xm : List Region) (m : Memory) (h
 
 /-- what the machine reads in the native stack below the frame -/
 theorem mem_read_lower_w (frame lower : Region) (xm : List Region) (m : Memory) (r w : Nat) (h : MemRelW frame lower xm m)
-    (hw : 0 < w) (hc : lower.contains r w = true) : readMem xm r w = some (memBytesAt lower r w) := by
+    (hc : lower.contains r w = true) : readMem xm r w = some (memBytesAt lower r w) := by
   obtain ⟨hxm, _, _, _, _, _, _, hpw, _⟩ := h
-  exact mem_readMem_of_mem xm lower r w hw hpw (by rw [hxm]; simp) hc
+  have hin : lower ∈ xm := by rw [hxm]; simp
+  by_cases hw : 0 < w
+  · exact mem_readMem_of_mem xm lower r w hw hpw hin hc
+  · have : w = 0 := by omega
+    subst this
+    rw [mem_readMem_zero xm lower r hin hc]; rfl
+
+/-- the `lower` witness of `MemRel` is the last region of the machine's memory -/
+theorem mem_getLast_w (frame lower : Region) (xm : List Region) (m : Memory) (h : MemRelW frame lower xm m) :
+    xm.getLast? = some lower := by
+  rw [h.1]
+  have : frame :: m.mbuff :: m.mem :: (m.extra ++ [lower]) = (frame :: m.mbuff :: m.mem :: m.extra) ++ [lower] := by simp
+  rw [this, List.getLast?_concat]
 
 /-- (M2) a write the eBPF-visible memory performs is performed by the machine's memory; the relation is kept, the
-    56 bytes above the eBPF stack and the 64 bytes of native stack below it read as before -/
+    56 bytes above the eBPF stack read as before, the last region (the native stack below the frame, which ends at the
+    eBPF stack's base) is the same and every range inside it reads as before -/
 theorem mem_write (xm : List Region) (m : Memory) (a : Nat) (bs : List (BitVec 8)) (m' : Memory)
     (h : MemRel xm m) (hw : 0 < bs.length) (hwr : m.writeBytes? a bs = some m') :
     ∃ xm', writeMem xm a bs = some xm' ∧ MemRel xm' m' ∧ m'.stack.base = m.stack.base ∧ m'.mem.base = m.mem.base ∧
       readMem xm' (m.stack.base + 512) 56 = readMem xm (m.stack.base + 512) 56 ∧
-      (∀ r w, 0 < w → m.stack.base ≤ r + 64 → r + w ≤ m.stack.base → readMem xm' r w = readMem xm r w) := by
+      (∀ lower, xm.getLast? = some lower → xm'.getLast? = some lower ∧ lower.base + lower.bytes.size = m.stack.base ∧
+        ∀ r w, lower.base ≤ r → r + w ≤ m.stack.base → readMem xm' r w = readMem xm r w) := by
   obtain ⟨frame, lower, h⟩ := h
   obtain ⟨xm', frame', hwm, h', hsb, hmb, htop⟩ := mem_write_w frame lower xm m a bs m' h hw hwr
   refine ⟨xm', hwm, ⟨frame', lower, h'⟩, hsb, hmb, ?_, ?_⟩
@@ -340,12 +362,16 @@ theorem mem_write (xm : List Region) (m : Memory) (a : Nat) (bs : List (BitVec 8
     apply htop
     have := h'.2.1
     omega
-  · intro r w hw0 h1 h2
+  · intro lower0 hl0
+    rw [mem_getLast_w frame lower xm m h] at hl0
+    cases hl0
+    have hend : lower.base + lower.bytes.size = m.stack.base := by
+      have := h.2.1; have := h.2.2.2.2.2.1; omega
+    refine ⟨mem_getLast_w frame' lower xm' m' h', hend, ?_⟩
+    intro r w h1 h2
     have hc : lower.contains r w = true := by
-      rw [mem_contains_iff]
-      have := h.2.1; have := h.2.2.2.2.2.1; have := h.2.2.2.2.2.2.1
-      omega
-    rw [mem_read_lower_w frame' lower xm' m' r w h' hw0 hc, mem_read_lower_w frame lower xm m r w h hw0 hc]
+      rw [mem_contains_iff]; omega
+    rw [mem_read_lower_w frame' lower xm' m' r w h' hc, mem_read_lower_w frame lower xm m r w h hc]
 
 /-! ### little-endian bytes -/
 
